@@ -42,7 +42,8 @@ func (u *Unbind) GetCommand() sms.ICommander {
 
 func (u *Unbind) GenEmptyResponse() sms.PDU {
 	return &UnbindResp{
-		Header: sgip.NewHeader(0, sgip.SGIP_UNBIND_REP, u.Sequence[0], u.GetSequenceID()),
+		// the response carries the sequence number of the request, all three parts (SGIP 1.2 §3.4)
+		Header: sgip.Header{TotalLength: 0, CommandID: sgip.SGIP_UNBIND_REP, Sequence: u.Header.Sequence},
 	}
 }
 
